@@ -197,6 +197,8 @@ def run_vrt_scenario(exe, scen, job, deadline_s, outdir):
         cmd += ['--race-oracle']
     if job.get('no_cache'):
         cmd += ['--no-cache']
+    if job.get('max_viol'):
+        cmd += ['--max-viol-execs', str(job['max_viol'])]
     r = sh(cmd)
     if r.returncode not in (0, 1):
         return {'scenario': scen, 'harness_error': 1, 'harness_error_msg': (r.stderr or '')[-2000:], 'rc': r.returncode}
